@@ -1,6 +1,7 @@
 package main
 
 import (
+	"regexp"
 	"strings"
 
 	"golang.org/x/tools/go/ssa"
@@ -16,6 +17,10 @@ func checkMultisigVerify(r *Run, rule string) {
 	}
 	ms := "out:multiSig←(*github.com/tendermint/go-amino.Codec).UnmarshalBinaryBare(global:crypto.cdc, param:multiSignature, addr:multiSig)"
 	n := "crypto.MultiSig.NumOfSigs(" + ms + ")"
+	// the loop over the components may be counted (i := 0; i < NumOfSigs; i++) or range over the keys (same bound under
+	// the count==keys guard); go/ssa spells the index phi((loop+1), 0) resp. (phi(-1, loop) + 1)
+	idxRe := `(?:phi\(\(loop:\w+ \+ 1\), 0\)|\(phi\(-1, loop:\w+\) \+ 1\))`
+	boundRe := `(?:` + q(n) + `|len\(param:pms\.PublicKeys\))`
 	nTrue := 0
 	for _, ret := range Returns(f) {
 		c, _ := P.retClass(ret, 0)
@@ -26,7 +31,7 @@ func checkMultisigVerify(r *Run, rule string) {
 		r.requireAtoms(rule, "multisig.VerifyBytes/true-return", ret, P.Guards(ret, 0), []req{
 			{"decoded", `^isnil\(\(\*github\.com/tendermint/go-amino\.Codec\)\.UnmarshalBinaryBare\(global:crypto\.cdc, param:multiSignature, addr:multiSig\)\)$`},
 			{"count==keys", `^\(` + q(n) + ` == len\(param:pms\.PublicKeys\)\)$`},
-			{"loop-finished", `^!\(phi\(\(loop:\w+ \+ 1\), 0\) < ` + q(n) + `\)$`},
+			{"loop-finished", `^!\(` + idxRe + ` < ` + boundRe + `\)$`},
 		})
 	}
 	r.Check(nTrue == 1, rule, "multisig.VerifyBytes/one-true-return", P.Pos(f.Pos()), "exactly one return can yield true", "the number of returns that can yield true is not 1")
@@ -37,13 +42,11 @@ func checkMultisigVerify(r *Run, rule string) {
 	}
 	v := vs[0]
 	t := P.callTerm(v)
-	idx := "phi((loop:"
-	okArgs := strings.HasPrefix(argTerm(t, 0).String(), "param:pms.PublicKeys["+idx) && argTerm(t, 1).String() == "param:msg" &&
-		strings.HasPrefix(argTerm(t, 2).String(), "crypto.MultiSig.GetSignatureByIndex("+ms+", "+idx) && strings.HasSuffix(argTerm(t, 2).String(), "#0")
-	// same index for key and signature
-	ki := strings.TrimPrefix(argTerm(t, 0).String(), "param:pms.PublicKeys[")
-	ki = strings.TrimSuffix(ki, "]")
-	okArgs = okArgs && strings.Contains(argTerm(t, 2).String(), ", "+ki+")#0")
+	okArgs := false
+	if m := regexp.MustCompile(`^param:pms\.PublicKeys\[(` + idxRe + `)\]$`).FindStringSubmatch(argTerm(t, 0).String()); m != nil {
+		// same index for key and signature
+		okArgs = argTerm(t, 1).String() == "param:msg" && argTerm(t, 2).String() == "crypto.MultiSig.GetSignatureByIndex("+ms+", "+m[1]+")#0"
+	}
 	r.Check(okArgs, rule, "multisig.VerifyBytes/positional", P.InstrPos(v), "PublicKeys[i].VerifyBytes(msg, sig_i) with the same i", "component check is "+t.String()+" ; required PublicKeys[i].VerifyBytes(msg, GetSignatureByIndex(i)) with the same i")
 	// every iteration performs the component check: from the loop-continue edge to the next loop test
 	isCmp := func(in ssa.Instruction) bool {
@@ -77,7 +80,7 @@ func checkMultisigVerify(r *Run, rule string) {
 		r.Check(!reach, rule, "multisig.VerifyBytes/missing-component=>false", P.InstrPos(v), "a missing component leads only to `return false`", "after a missing component the function can continue to "+P.InstrPos(w))
 	}
 	// loop body always checks: from the (i < n) true edge the component check or a false-return is reached before the next test
-	r.mustFollowEdge(rule, "multisig.VerifyBytes/every-index-checked", f, `^\(phi\(\(loop:\w+ \+ 1\), 0\) < `+q(n)+`\)$`,
+	r.mustFollowEdge(rule, "multisig.VerifyBytes/every-index-checked", f, `^\(`+idxRe+` < `+boundRe+`\)$`,
 		func(in ssa.Instruction) bool {
 			if in == ssa.Instruction(v) {
 				return true
